@@ -35,6 +35,9 @@ struct Agg {
     inconclusive_samples: Vec<String>,
     /// (phase, build, idx, case, result)
     viols: Vec<(String, String, u64, Value, CaseResult)>,
+    /// finding id -> (what, witnesses this run); matched when recorded so that a flood of known
+    /// witnesses cannot crowd out unlisted violations
+    known_hits: BTreeMap<String, (String, u64)>,
     fatal: Vec<String>,
 }
 
@@ -134,6 +137,8 @@ pub fn death_signature(stderr: &str, status: &std::process::ExitStatus, case: &V
 struct Shared {
     agg: Mutex<Agg>,
     stop: AtomicBool,
+    known: Vec<findings::Finding>,
+    prop_id: String,
 }
 
 #[allow(clippy::too_many_arguments)]
@@ -383,14 +388,19 @@ fn record(shared: &Shared, phase: &Phase, idx: u64, case: Value, r: CaseResult) 
         let m = format!("{}#{}: {}", phase.name, idx, truncate(&r.msg, 300));
         agg.inconclusive_samples.push(m);
     }
-    if r.verdict == Verdict::Violation && agg.viols.len() < 2000 {
-        agg.viols.push((phase.name.to_string(), phase.build.name().to_string(), idx, case, r));
+    if r.verdict == Verdict::Violation {
+        if let Some(f) = findings::matches(&shared.known, &shared.prop_id, &r.sig) {
+            let e = agg.known_hits.entry(f.id.clone()).or_insert((f.what.clone(), 0));
+            e.1 += 1;
+        } else if agg.viols.len() < 5000 {
+            agg.viols.push((phase.name.to_string(), phase.build.name().to_string(), idx, case, r));
+        }
     }
 }
 
 pub fn run_property(prop: &dyn Prop, tier: Tier, seed: u64) -> i32 {
     let start = Instant::now();
-    let shared = Shared { agg: Mutex::new(Agg::default()), stop: AtomicBool::new(false) };
+    let shared = Shared { agg: Mutex::new(Agg::default()), stop: AtomicBool::new(false), known: findings::load(), prop_id: prop.id().to_string() };
     let phases = prop.phases(tier);
     let only_phase = std::env::var("GV_PHASE").ok();
     let mut build_missing = Vec::new();
@@ -428,7 +438,7 @@ fn finish(prop: &dyn Prop, tier: Tier, seed: u64, phases: &[Phase], agg: Agg, bu
     let id = prop.id();
     let known = findings::load();
     let replay_dir = format!("{}/replays/{}", crate::verif_dir(), id);
-    let mut known_hits: BTreeMap<String, (String, u64)> = BTreeMap::new();
+    let mut known_hits: BTreeMap<String, (String, u64)> = agg.known_hits.clone();
     let mut unknown: Vec<String> = Vec::new();
     let mut unknown_sigs: BTreeMap<String, u64> = BTreeMap::new();
     for (phase, build, idx, case, r) in &agg.viols {
@@ -441,7 +451,7 @@ fn finish(prop: &dyn Prop, tier: Tier, seed: u64, phases: &[Phase], agg: Agg, bu
         let n = unknown_sigs.entry(sigkey).or_default();
         *n += 1;
         // at most 3 replay files per distinct signature, 40 in total
-        if *n > 3 || unknown.len() >= 40 {
+        if *n > 2 || unknown.len() >= 400 {
             continue;
         }
         let _ = std::fs::create_dir_all(&replay_dir);
